@@ -94,25 +94,25 @@ theorem scan_colpart (c : Spec.ColEnd) (row op : Str) :
     simp
 
 theorem flushCol_render (c c' : Spec.ColEnd) (row op : Str)
-    (hc : Spec.colOk c) (hs : Spec.shiftCol kr e c = some c') (hc' : Spec.colOk c') :
+    (hA : ∀ op, adjCol kr e (numToName c.n) op c.abs = .ok (op ++ numToName c'.n, false)) :
     flushCol kr e ⟨numToName c.n, row, op, c.abs⟩ = .ok ⟨[], row, op ++ numToName c'.n, false⟩ := by
-  simp [flushCol, adjCol_render kr e c c' op hc hs hc']
+  simp [flushCol, hA op]
 
 theorem flushRow_render (r r' : Spec.RowEnd) (col op : Str)
-    (hr : Spec.rowOk r) (hs : Spec.shiftRow kr e r = some r') (hr' : Spec.rowOk r') :
+    (hB : ∀ op, adjRow kr e (itoa r.n) op r.abs = .ok (op ++ itoa r'.n, false)) :
     flushRow kr e ⟨col, itoa r.n, op, r.abs⟩ = .ok ⟨col, [], op ++ itoa r'.n, false⟩ := by
-  simp [flushRow, adjRow_render kr e r r' op hr hs hr']
+  simp [flushRow, hB op]
 
 /-- `$`? + row digits while a column name is pending -/
 theorem scan_rowpart_pending (c c' : Spec.ColEnd) (r : Spec.RowEnd) (op : Str)
-    (hc : Spec.colOk c) (hs : Spec.shiftCol kr e c = some c') (hc' : Spec.colOk c') :
+    (hA : ∀ op, adjCol kr e (numToName c.n) op c.abs = .ok (op ++ numToName c'.n, false)) :
     scan kr e ⟨numToName c.n, [], op, c.abs⟩ (Spec.renderRow r) =
       .ok ⟨[], itoa r.n, op ++ numToName c'.n ++ Spec.dollarIf r.abs, r.abs⟩ := by
   unfold Spec.renderRow Spec.dollarIf
   cases hr : r.abs with
   | true =>
     simp only [if_true, List.cons_append, List.nil_append, scan, step_dollar,
-      flushCol_render kr e c c' [] op hc hs hc']
+      flushCol_render kr e c c' [] op hA]
     rw [scan_digits_clean kr e _ (itoa_digits r.n)]
     simp
   | false =>
@@ -123,7 +123,7 @@ theorem scan_rowpart_pending (c c' : Spec.ColEnd) (r : Spec.RowEnd) (op : Str)
     | cons d ds =>
       rw [hi] at hd
       simp only [scan, step_digit kr e _ d (hd d (by simp)), List.nil_append,
-        flushCol_render kr e c c' [d] op hc hs hc']
+        flushCol_render kr e c c' [d] op hA]
       rw [scan_digits_clean kr e _ (fun x hx => hd x (by simp [hx]))]
       simp
 
@@ -166,33 +166,33 @@ def runEnd (s : St) (xs : Str) : Except Err St :=
 
 /-- a cell endpoint `$?COL$?ROW` -/
 theorem runEnd_cell (c c' : Spec.ColEnd) (r r' : Spec.RowEnd) (op : Str)
-    (hc : Spec.colOk c) (hsc : Spec.shiftCol kr e c = some c') (hc' : Spec.colOk c')
-    (hr : Spec.rowOk r) (hsr : Spec.shiftRow kr e r = some r') (hr' : Spec.rowOk r') :
+    (hA : ∀ op, adjCol kr e (numToName c.n) op c.abs = .ok (op ++ numToName c'.n, false)) (hca : c'.abs = c.abs)
+    (hB : ∀ op, adjRow kr e (itoa r.n) op r.abs = .ok (op ++ itoa r'.n, false)) (hra : r'.abs = r.abs) :
     runEnd kr e ⟨[], [], op, false⟩ (Spec.renderCol c ++ Spec.renderRow r) =
       .ok ⟨[], [], op ++ (Spec.renderCol c' ++ Spec.renderRow r'), false⟩ := by
   unfold runEnd
   rw [scan_append, scan_colpart]
-  simp only [scan_rowpart_pending kr e c c' r _ hc hsc hc']
-  simp only [flushBoth, flushCol_nil, flushRow_render kr e r r' [] _ hr hsr hr']
-  simp [Spec.renderCol, Spec.renderRow, shiftCol_abs kr e hsc, shiftRow_abs kr e hsr]
+  simp only [scan_rowpart_pending kr e c c' r _ hA]
+  simp only [flushBoth, flushCol_nil, flushRow_render kr e r r' [] _ hB]
+  simp [Spec.renderCol, Spec.renderRow, hca, hra]
 
 /-- a whole-column endpoint `$?COL` -/
 theorem runEnd_col (c c' : Spec.ColEnd) (op : Str)
-    (hc : Spec.colOk c) (hsc : Spec.shiftCol kr e c = some c') (hc' : Spec.colOk c') :
+    (hA : ∀ op, adjCol kr e (numToName c.n) op c.abs = .ok (op ++ numToName c'.n, false)) (hca : c'.abs = c.abs) :
     runEnd kr e ⟨[], [], op, false⟩ (Spec.renderCol c) = .ok ⟨[], [], op ++ Spec.renderCol c', false⟩ := by
   unfold runEnd
   rw [scan_colpart]
-  simp only [flushBoth, flushCol_render kr e c c' [] _ hc hsc hc', flushRow_nil]
-  simp [Spec.renderCol, shiftCol_abs kr e hsc]
+  simp only [flushBoth, flushCol_render kr e c c' [] _ hA, flushRow_nil]
+  simp [Spec.renderCol, hca]
 
 /-- a whole-row endpoint `$?ROW` -/
 theorem runEnd_row (r r' : Spec.RowEnd) (op : Str)
-    (hr : Spec.rowOk r) (hsr : Spec.shiftRow kr e r = some r') (hr' : Spec.rowOk r') :
+    (hB : ∀ op, adjRow kr e (itoa r.n) op r.abs = .ok (op ++ itoa r'.n, false)) (hra : r'.abs = r.abs) :
     runEnd kr e ⟨[], [], op, false⟩ (Spec.renderRow r) = .ok ⟨[], [], op ++ Spec.renderRow r', false⟩ := by
   unfold runEnd
   rw [scan_rowpart_clean]
-  simp only [flushBoth, flushCol_nil, flushRow_render kr e r r' [] _ hr hsr hr']
-  simp [Spec.renderRow, shiftRow_abs kr e hsr]
+  simp only [flushBoth, flushCol_nil, flushRow_render kr e r r' [] _ hB]
+  simp [Spec.renderRow, hra]
 
 theorem adjustCell_single (op0 op1 X : Str)
     (h : runEnd kr e ⟨[], [], op0, false⟩ X = .ok ⟨[], [], op1, false⟩) :
